@@ -700,6 +700,55 @@ def _check_dispatch_agreement(ctx: Ctx, rels: Sequence[str]) -> None:
     ctx.unit('cloud_dispatch_regions', n_regions)
 
 
+def _check_memo(ctx: Ctx, mi: pf.Module) -> None:
+    """R7: the selection must be made against the configs in force.  If select_inst_coll memoises its answers (`k in self.X` /
+    `self.X[k] = result`), the key must cover every parameter and the memo must be emptied *after* the configs are replaced, with no
+    suspension point in between; emptying it before an `await` lets a request handled during the await re-fill it from the old configs."""
+    cls = mi.cls('InstanceCollectionConfigs')
+    fn = mi.func('InstanceCollectionConfigs.select_inst_coll')
+    memo = None
+    for n in ast.walk(fn):
+        if isinstance(n, ast.Compare) and len(n.ops) == 1 and isinstance(n.ops[0], ast.In) and isinstance(n.comparators[0], ast.Attribute) and pf.nsrc(n.comparators[0]).startswith('self.'):
+            attr = pf.nsrc(n.comparators[0])
+            writes = [a for a in ast.walk(fn) if isinstance(a, ast.Assign) and isinstance(a.targets[0], ast.Subscript) and pf.nsrc(a.targets[0].value) == attr]
+            if writes:
+                memo = (attr, n.left, n)
+    if memo is None:
+        ctx.ok('R7', f'{FI}::InstanceCollectionConfigs.select_inst_coll::not memoised', nontrivial=False)
+        return
+    attr, key, node = memo
+    cons = f'{FI}::InstanceCollectionConfigs.select_inst_coll::memo {attr}'
+    key = pf.resolve_expr(fn, key)
+    parts = {pf.nsrc(x) for x in (key.elts if isinstance(key, ast.Tuple) else [key])}
+    params = [a.arg for a in fn.args.args + fn.args.kwonlyargs if a.arg != 'self']
+    missing = [p_ for p_ in params if p_ not in parts]
+    ctx.check(not missing, 'R7', cons + '::key', f'memoised selections are keyed by {sorted(parts)} but the selection also depends on {missing}: requests differing only there get each other\'s placement',
+              mi.path, node.lineno)
+    # config attributes the selection reads
+    cfg_attrs = {'self.name_pool_config', 'self.jpim_config', 'self.resource_rates', 'self.product_versions'}
+    for q, f2 in mi.functions():
+        if not q.startswith('InstanceCollectionConfigs.') or f2.name in ('__init__', 'select_inst_coll'):
+            continue
+        g = pf.cfg(f2)
+        assigns = g.find(lambda n_: n_.kind == 'stmt' and isinstance(n_.ast, ast.Assign) and any(pf.nsrc(x) in cfg_attrs for t in n_.ast.targets for x in ast.walk(t)))
+        if not assigns:
+            continue
+        clears = g.find(lambda n_: any(pf.dotted(c.func) == f'{attr}.clear' for c in pf.node_calls(n_)) or (isinstance(n_.ast, ast.Assign) and pf.nsrc(n_.ast.targets[0]) == attr))
+        ok = bool(clears)
+        why = 'the memo is never emptied when the configs are replaced'
+        if ok:
+            # some clear must come after every config assignment without an await in between
+            for a in assigns:
+                later = [c for c in clears if g.path_avoiding(a, lambda x, c=c: x is c, lambda x: pf.node_has_await(x)) is not None or a is c]
+                if not later:
+                    ok = False
+                    why = (f'`{pf.nsrc(a.ast)[:50]}` is not followed by emptying {attr} before the next suspension point; the only clear happens earlier, so a selection computed '
+                           'while the new configs were being loaded (during the await) is cached from the OLD configs and survives the refresh')
+        ctx.check(ok, 'R7', f'{FI}::{q}::invalidates {attr}', f'{why}: later identical requests are placed (or rejected) according to pool configurations that are no longer in force',
+                  mi.path, f2.lineno)
+    raise AnalysisError('select_inst_coll is memoised: the dispatch table rules are not evaluated on the memoised shape')
+
+
 def run(ctx: Ctx) -> None:
     ctx.explanation = ('Per pool-selection method: CFG must-pass-through (with branch polarity) of the cloud/preemptible/label/worker-type filters before a pool is used; '
                        'fits-one-worker guard and storage provenance of every returned placement; truth table of select_inst_coll; like-named argument plumbing and '
@@ -710,10 +759,12 @@ def run(ctx: Ctx) -> None:
     ctx.rule('R4', 'placement tuples are (name, cores, memory, storage) at every writer/reader; arguments go to like-named parameters along the chain', 17)
     ctx.rule('R5', 'granted >= requested shapes: max(cores, ceil(memory/per-core)), storage returns >= request, bytes->GiB rounds up', 15)
     ctx.rule('R6', 'in every cloud == X branch only X helpers are used (anchored modules)', 26)
+    ctx.rule('R7', 'selection is computed against the configs in force: no memo, or a memo keyed by all parameters and emptied atomically after the configs are replaced', 1)
     ctx.assume('float arithmetic in adjust_cores_for_packability / cores<->memory conversions is not decided (numeric clause)')
     ctx.assume("the job validator admits no 'cloud' key, so the job's cloud equals the deployment CLOUD")
     mi = pf.load(FI)
     ctx.unit('files', 5)
+    _check_memo(ctx, mi)
     facts = Facts()
     selectors = _check_selectors(ctx, mi, facts)
     _check_convert(ctx, mi, facts)
